@@ -99,6 +99,13 @@ pub fn run_prop(ctx: &Ctx, sink: &mut Sink) {
         (vec![], &b"a 'b\n"[..]),
         (vec!["n1"], &b"a b \"c\n"[..]),
         (vec!["s8"], &b"a bbbbbbbbbbbb c\n"[..]),
+        // a quote opened as the very last byte (nothing collected yet when the input ends)
+        (vec![], &b"a b \""[..]),
+        (vec![], &b"a b\n'"[..]),
+        (vec![], &b"\""[..]),
+        (vec!["n1"], &b"a '"[..]),
+        (vec!["L1"], &b"a\nb \""[..]),
+        (vec![], &b"a \\"[..]),
     ] {
         let c = XCase {
             opts: opts.iter().map(|s| s.to_string()).collect(),
